@@ -2,8 +2,11 @@
 package main
 
 import (
+	"encoding/json"
 	"fmt"
 	"os"
+	"os/exec"
+	"strings"
 
 	"github.com/emitter-io/emitter/internal/verifx/engine/core"
 )
@@ -46,6 +49,22 @@ func main() {
 		if err != nil {
 			fmt.Println("cannot read replay:", err)
 			os.Exit(2)
+		}
+		// an interleaving case of a check whose main part runs uninstrumented: hand over to the scheduled binary
+		var partProbe struct {
+			Part string `json:"part"`
+		}
+		json.Unmarshal(raw, &partProbe)
+		if sb := core.SchedBin(); sb != "" && strings.HasPrefix(partProbe.Part, "sched:") {
+			cmd := exec.Command(sb, os.Args[1:]...)
+			cmd.Stdout, cmd.Stderr = os.Stdout, os.Stderr
+			if err := cmd.Run(); err != nil {
+				if ee, ok := err.(*exec.ExitError); ok {
+					os.Exit(ee.ExitCode())
+				}
+				os.Exit(2)
+			}
+			os.Exit(0)
 		}
 		fmt.Println("replaying", sig)
 		reproduced := 0
